@@ -554,6 +554,22 @@ def g_context(mode):
 # ---------------------------------------------------------------------------------------------------------------------
 # C03 (server part) / C07
 
+def drain(it):
+    """consume a remote iterator and close it in THIS thread (left to the garbage collector, its __del__ may run inside the in-process
+    daemon's own thread and try to connect to that very daemon)"""
+    try:
+        return list(it)
+    finally:
+        it.close()
+
+
+def batch_of(p):
+    b = client.BatchProxy(p)
+    b.once("in batch")
+    b.raise_builtin("ValueError", ["a", 1])
+    return b
+
+
 def g_replies(mode):
     marshal = serializers.serializers["marshal"]
 
@@ -582,6 +598,22 @@ def g_replies(mode):
             e = ValueError("x")
             e.lock = threading.Lock()
             raise e
+
+        @property
+        def bad_prop(self):
+            raise ValueError("bad value", 42)
+
+        @bad_prop.setter
+        def bad_prop(self, v):
+            e = KeyError("cannot set", v)
+            e.custom = [v]
+            raise e
+
+        def items_then_fail(self):
+            def g():
+                yield 1
+                raise ValueError("mid-stream", 7)
+            return g()
 
         def raise_halfinit(self):
             class Slotted(object):
@@ -651,6 +683,23 @@ def g_replies(mode):
                                 if type(x) is not getattr(errors, name) or "pyro says no" not in str(x):
                                     if "C07-user-raised-communication-error" not in KNOWN:
                                         KNOWN.append("C07-user-raised-communication-error")
+                    # the other positions an exception can travel in: attribute get / set, batch member, streamed item
+                    for pos, act, want_t, want_args in (
+                            ("attribute get", lambda: p.bad_prop, ValueError, ("bad value", 42)),
+                            ("attribute set", lambda: setattr(p, "bad_prop", 5), KeyError, ("cannot set", 5)),
+                            ("batch member", lambda: list(batch_of(p)()), ValueError, ("a", 1)),
+                            ("streamed item", lambda: drain(p.items_then_fail()), ValueError, ("mid-stream", 7))):
+                        RUNS[0] += 1
+                        try:
+                            act()
+                            fail(group="C07", serializer=sername, position=pos, violated="no exception")
+                        except Exception as x:    # noqa
+                            if sername == "marshal" and pos == "batch member" and isinstance(x, ValueError) and "unmarshallable" in str(x):
+                                if "C07-marshal-batch-member-exception" not in KNOWN:
+                                    KNOWN.append("C07-marshal-batch-member-exception")
+                            elif type(x) is not want_t or tuple(x.args) != want_args:
+                                fail(group="C07", serializer=sername, position=pos,
+                                     violated="caller got %s%r instead of %s%r" % (type(x).__name__, x.args, want_t.__name__, want_args))
                     RUNS[0] += 1
                     try:
                         p.raise_with_attr()
@@ -747,6 +796,35 @@ def g_batch(mode):
                         finally:
                             for o in objs:
                                 r.daemon.unregister(o)
+            # the same batch proxy used for several submits (normal and oneway, in every order): each submit runs exactly the calls queued
+            # since the previous one
+            for first_oneway, second_oneway in ((False, False), (True, False), (False, True), (True, True)):
+                RUNS[0] += 1
+                objs = [Acc(), Acc()]
+                uris = [r.daemon.register(o) for o in objs]
+                try:
+                    with client.Proxy(uris[0]) as p:
+                        for n in (1, 2, 10):
+                            p.add(n)
+                    with client.Proxy(uris[1]) as p:
+                        b = client.BatchProxy(p)
+                        b.add(1)
+                        b.add(2)
+                        res1 = b(oneway=first_oneway)
+                        got1 = list(res1) if res1 is not None else None
+                        if first_oneway:
+                            time.sleep(0.15)
+                        b.add(10)
+                        res2 = b(oneway=second_oneway)
+                        got2 = list(res2) if res2 is not None else None
+                        if second_oneway:
+                            time.sleep(0.15)
+                    if objs[0].state() != objs[1].state() or (got2 is not None and got2 != [13]) or (got1 is not None and got1 != [1, 3]):
+                        fail(group="C11", history="re-used batch proxy: submit(oneway=%s) then submit(oneway=%s)" % (first_oneway, second_oneway),
+                             violated="second submit returned %r and left state %r; one-by-one gives [13] and %r" % (got2, objs[1].state(), objs[0].state()))
+                finally:
+                    for o in objs:
+                        r.daemon.unregister(o)
 
 
 # ---------------------------------------------------------------------------------------------------------------------
@@ -859,6 +937,34 @@ def g_registry(mode):
                         pass
                     if how == "by-id-then-id-reused":
                         d.unregister(y)
+        # garbage collection of a weakly registered object: its id becomes unknown - but an object registered under that id LATER stays reachable
+        import gc
+        for how in ("collected-while-registered", "unregistered-by-object-then-id-reused", "unregistered-by-id-then-id-reused", "id-taken-over-by-force"):
+            RUNS[0] += 1
+            w, later = Box("weak"), Box("later")
+            d.register(w, "idw", weak=True)
+            if how == "unregistered-by-object-then-id-reused":
+                d.unregister(w)
+                d.register(later, "idw")
+            elif how == "unregistered-by-id-then-id-reused":
+                d.unregister("idw")
+                d.register(later, "idw")
+            elif how == "id-taken-over-by-force":
+                d.register(later, "idw", force=True)
+            del w
+            gc.collect()
+            try:
+                with client.Proxy("PYRO:idw@%s:%d" % r.addr) as q:
+                    who = q.who()
+                if how == "collected-while-registered":
+                    fail(group="C16", how=how, violated="id of a collected weakly registered object still reaches %r" % who)
+                elif who != "later":
+                    fail(group="C16", how=how, violated="id reaches %r instead of the object registered under it" % who)
+            except (errors.DaemonError, errors.CommunicationError):      # unknown object: refused at the handshake
+                if how != "collected-while-registered":
+                    fail(group="C16", how=how, violated="collecting the object that USED to own the id unregistered the object registered under it now")
+            if "idw" in d.objectsById:
+                d.unregister("idw")
 
 
 # ---------------------------------------------------------------------------------------------------------------------
@@ -1020,6 +1126,66 @@ def g_gate(mode):
         raw.close()
         if advertised_methods != {"m", "ow", "sm", "cm", "base_exposed", "__len__"} or advertised_attrs != {"p", "ro"}:
             fail(group="C02", violated="advertised members %r / %r" % (sorted(advertised_methods), sorted(advertised_attrs)))
+        # class-level @expose: exactly the members the class itself defines become reachable - not those it merely inherits from an
+        # unexposed base (neither on the subclass nor, through the shared function objects, on a plain instance of the base)
+        class PlainBase(object):
+            def inherited_hidden(self):
+                LOG.append("inherited_hidden")
+                return 1
+
+            @property
+            def inherited_prop(self):
+                LOG.append("inherited_prop")
+                return 1
+
+        @api.expose
+        class Whole(PlainBase):
+            def own(self):
+                LOG.append("own")
+                return 1
+
+            @property
+            def own_prop(self):
+                LOG.append("own_prop")
+                return 1
+
+            def _own_private(self):
+                LOG.append("_own_private")
+
+        r.daemon.register(Whole(), "whole")
+        r.daemon.register(PlainBase(), "plainbase")
+        for oid, allowed_m, allowed_a in (("whole", {"own"}, {"own_prop"}), ("plainbase", set(), set())):
+            raw = Raw(r.addr)
+            hs = raw.connect(oid)
+            if bool(hs.flags & P.FLAGS_EXCEPTION) if hasattr(hs, "flags") and hs.type != P.MSG_CONNECTOK else False:
+                continue
+            meta = raw.value(hs)["meta"]
+            if set(meta["methods"]) != allowed_m or set(meta["attrs"]) != allowed_a:
+                fail(group="C02", object=oid, violated="class-level @expose advertises %r / %r, the class itself defines %r / %r" % (
+                    sorted(meta["methods"]), sorted(meta["attrs"]), sorted(allowed_m), sorted(allowed_a)))
+            for name in ("own", "inherited_hidden", "own_prop", "inherited_prop", "_own_private"):
+                for kind in ("call", "batch", "getattr", "setattr"):
+                    RUNS[0] += 1
+                    del LOG[:]
+                    seq = RUNS[0] % 60000
+                    if kind == "call":
+                        raw.invoke(oid, name, (), seq=seq)
+                    elif kind == "batch":
+                        raw.invoke(oid, "<batch>", [(name, (), {})], flags=P.FLAGS_BATCH, seq=seq)
+                    elif kind == "getattr":
+                        raw.invoke(oid, "__getattr__", (name,), seq=seq)
+                    else:
+                        raw.invoke(oid, "__setattr__", (name, 1), seq=seq)
+                    m = raw.reply()
+                    if m is None:
+                        fail(group="C02", object=oid, name=name, kind=kind, violated="no reply / connection dropped for a refused request")
+                        raw = Raw(r.addr)
+                        raw.connect(oid)
+                        continue
+                    ok = name in (allowed_m if kind in ("call", "batch") else allowed_a)
+                    if LOG and not ok:
+                        fail(group="C02", object=oid, name=name, kind=kind, violated="code of an inherited / unexposed member ran: %r" % (list(LOG),))
+            raw.close()
         # exposure follows the class as it is now: a property that is withdrawn (replaced by an unexposed one, or deleted) and
         # whose metadata cache was reset must be refused afterwards, for reads and writes
         class Vault(object):
